@@ -42,156 +42,8 @@ NULL_CONTRACT = {
 }
 
 
-def _nullflow(P, reg, fi: FuncInfo, self_struct, extra_env, strict_tags):
-    """Run fi abstractly; report uses of possibly-NULL operand values.
-
-    A *use* is: passing the value to a call (other than evaluating another operand node), comparing it with
-    an ordering/membership operator, arithmetic on it, or dereferencing it.  `is None` tests and returning it
-    are not uses.
-    """
-    uses = []
-
-    def maybe_null_operand(v):
-        a = atoms_of(v)
-        return a is not TOP and NoneT in a and Val in a
-
-    class NI(Interp):
-        def e_Compare(self, e, env, frame):
-            vals = [self.ev(e.left, env, frame)] + [self.ev(c, env, frame) for c in e.comparators]
-            for i, op in enumerate(e.ops):
-                if isinstance(op, (ast.Is, ast.IsNot)):
-                    continue
-                for v in (vals[i], vals[i + 1]):
-                    if maybe_null_operand(v):
-                        uses.append((e.lineno, f'comparison `{ast.unparse(e)}`'))
-            return A(bool)
-
-        def e_BinOp(self, e, env, frame):
-            l, r = self.ev(e.left, env, frame), self.ev(e.right, env, frame)
-            for v in (l, r):
-                if maybe_null_operand(v):
-                    uses.append((e.lineno, f'arithmetic `{ast.unparse(e)}`'))
-            return A(Val)
-
-    def hook(it, e, f, args, kw, env, frame):
-        if isinstance(f, NodeRef):
-            return None
-        for v in list(args) + list(kw.values()):
-            if maybe_null_operand(v):
-                uses.append((e.lineno, f'call `{ast.unparse(e)}`'))
-            if isinstance(v, Coll) and maybe_null_operand(v.elem):
-                uses.append((e.lineno, f'call `{ast.unparse(e)}` with possibly-NULL elements'))
-        # the result of the underlying operation is an opaque non-NULL or NULL value
-        from ..absint import Meth
-        if isinstance(f, Meth):
-            base = atoms_of(f.base)
-            if base is not TOP and NoneT in base:
-                uses.append((e.lineno, f'method call on possibly-NULL `{ast.unparse(e.func.value)}`'))
-            return A(NoneT, Val) if f.name == 'get' else None
-        if f is TOP or isinstance(f, (Struct,)):
-            return A(Val, NoneT)
-        return None
-
-    it = NI(P, reg, call_hook=hook)
-    env = it.new_env(fi)
-    env.update(extra_env)
-    env['self'] = self_struct
-    frame = it.run_function(fi, env)
-    for r in frame.raises:
-        if r.exc == 'AttributeError' and 'NoneType' in r.atoms:
-            uses.append((r.lineno, f'dereference `{r.what}` of a possibly-NULL value'))
-    return uses, frame
 
 
-def rule_nullstrict(P) -> RuleResult:
-    res = RuleResult('R-NULLSTRICT')
-    reg = registry.get(P)
-    qc = P.module(QC)
-    evalnode = P.cls(QC, 'EvalNode')
-    # (1) the generic evaluator classes
-    for ci in qc.classes.values():
-        if ci.parent is not None or not P.is_subclass(ci, evalnode.fq):
-            continue
-        contract = NULL_CONTRACT.get(ci.name)
-        if contract is None:
-            inherited = P.find_method(ci, '__call__')
-            if isinstance(inherited, FuncInfo) and isinstance(inherited.parent, ClassInfo) \
-                    and inherited.parent is not ci and inherited.parent.name in NULL_CONTRACT:
-                continue     # e.g. the per-signature Between classes: behaviour is EvalBetween's
-            res.info(f'new-instance: evaluator class {ci.name} has no NULL contract on record (not checked)')
-            continue
-        kind, operands, why = contract
-        if kind != 'strict':
-            continue
-        call = P.find_method(ci, '__call__')
-        if not isinstance(call, FuncInfo):
-            raise AnalysisError(f'anchor vanished: {ci.name}.__call__')
-        fields = {a: NodeRef(a) for a in operands}
-        fields.update({'operator': TOP, 'getter': TOP, 'key': A(str), 'dtype': TOP})
-        uses, frame = _nullflow(P, reg, call, Struct('self', fields), {'context': TOP}, operands)
-        # every strict operand must actually be evaluated
-        src = ast.unparse(call.node)
-        for a in operands:
-            if f'self.{a}(' not in src:
-                res.fail(ci.fq + '.__call__', f'operand-not-evaluated:{a}', f'{ci.name} never evaluates self.{a}', loc(call))
-        if uses:
-            ln, what = uses[0]
-            res.fail(ci.fq + '.__call__', 'null-flow',
-                     f'{ci.name} must yield NULL when an operand is NULL, but a possibly-NULL operand value reaches '
-                     f'{what} without an `is None -> return None` test', f'{call.module.path}:{ln}')
-        else:
-            res.ok({'class': ci.name, 'operands': operands, 'why': why})
-        # a NULL operand must produce NULL: every return reached with a NULL operand returns None
-    # (2) the wrapper generated by @function
-    fdec = P.func('beanquery.query_env', 'function')
-    func_call = P.maybe_func('beanquery.query_env', 'function.<locals>.decorator.<locals>.Func.__call__')
-    if func_call is None:
-        raise AnalysisError('anchor vanished: query_env.function.<locals>.decorator.<locals>.Func.__call__')
-    selfs = Struct('self', {'operands': Coll(list, NodeRef('operand')), 'context': TOP})
-    for flags in ({'pass_row': A(bool), 'pass_context': A(bool)},):
-        uses, frame = _nullflow(P, reg, func_call, selfs,
-                                {'row': TOP, 'func': TOP, 'pass_row': TOP, 'pass_context': TOP}, ['operands'])
-        if uses:
-            ln, what = uses[0]
-            res.fail(func_call.fq, 'null-flow',
-                     f'functions must yield NULL when any argument is NULL, but possibly-NULL argument values reach '
-                     f'{what}', f'{func_call.module.path}:{ln}')
-        else:
-            res.ok({'class': '@function wrapper Func.__call__', 'operands': 'all arguments'})
-    # (3) getitem(container, key[, default]): NULL container -> NULL
-    for name in ('GetItem2', 'GetItem3'):
-        ci = P.cls('beanquery.query_env', name)
-        call = ci.methods.get('__call__')
-        if call is None:
-            raise AnalysisError(f'anchor vanished: {name}.__call__')
-        n = 2 if name == 'GetItem2' else 3
-        from ..absint import Tup
-        selfs = Struct('self', {'operands': Tup(tuple([NodeRef('container')] + [NodeRef(f'arg{i}', A(Val)) for i in range(1, n)]))})
-        uses, frame = _nullflow(P, reg, call, selfs, {'row': TOP}, ['container'])
-        if uses:
-            ln, what = uses[0]
-            res.fail(ci.fq + '.__call__', 'null-flow', f'{name}: a NULL container reaches {what}', f'{call.module.path}:{ln}')
-        else:
-            res.ok({'class': name, 'operands': ['container']})
-    # (4) census: which operator kinds sit on which base
-    aware = {'Not', 'IsNull', 'IsNotNull'}
-    for o in reg.ops:
-        base = o.base.name if o.base is not None else '?'
-        contract = NULL_CONTRACT.get(base, ('?',))[0]
-        if o.kind in aware:
-            if contract != 'aware':
-                res.fail(f'operator:{o.label}', 'base', f'{o.kind} must see NULL operands (NOT NULL is TRUE, IS [NOT] NULL '
-                         f'are NULL-aware) but is built on the NULL-propagating {base}')
-            else:
-                res.ok({'overload': o.label, 'base': base, 'contract': 'aware'})
-        else:
-            if contract != 'strict':
-                res.fail(f'operator:{o.label}', 'base', f'{o.kind} must yield NULL for a NULL operand but is built on {base}, '
-                         f'which passes NULL to the operator function',
-                         f'{o.cls.info.module.path}:{getattr(o.site, "lineno", 0)}')
-            else:
-                res.ok({'overload': o.label, 'base': base, 'contract': 'strict'})
-    return res
 
 
 # ----------------------------------------------------------------------
@@ -637,75 +489,7 @@ def _show(t):
 # ----------------------------------------------------------------------
 # NULL truth table of the NULL-propagating nodes (part of R-NULLSTRICT)
 
-def _null_table(P, ci, call, operands):
-    """Execute `call` for every NULL/non-NULL assignment of the operands and every outcome of the comparisons between
-    non-NULL values.  -> list of (assignment, result) that break `result is NULL iff some operand is NULL`."""
-    import itertools
-    bad = []
-    V = {a: finite.Sym('V_' + a) for a in operands}
-    ncases = 0
-    for combo in itertools.product((None, 'v'), repeat=len(operands)):
-        assign = {a: (None if c is None else V[a]) for a, c in zip(operands, combo)}
-        for outcomes in itertools.product((True, False), repeat=3):
-            oc = list(outcomes)
-            used = []
-
-            def order(op, l, r, _oc=oc, _used=used):
-                _used.append(1)
-                return _oc[(len(_used) - 1) % len(_oc)]
-
-            def callh(e, st, m, _assign=assign):
-                src = ast.unparse(e.func)
-                if src.startswith('self.') and src[5:] in _assign and len(e.args) == 1:
-                    return _assign[src[5:]]
-                if src.startswith('self.'):
-                    return finite.Sym('RESULT')       # the underlying operation applied: a non-NULL result
-                if isinstance(e.func, ast.Attribute):
-                    return finite.Sym('RESULT')
-                return NotImplemented
-            mach = finite.Machine(call=callh, order=order, names={'self': finite.Sym('self'), 'context': finite.Sym('ctx')},
-                                  expr=lambda e, st, m: finite.Sym(ast.unparse(e)) if isinstance(e, ast.Attribute) else NotImplemented)
-            try:
-                mach.run(body_without_docstring(call.node), {})
-                got = None
-            except finite.Return as r:
-                got = r.value
-            ncases += 1
-            want_null = any(v is None for v in assign.values())
-            if (got is None) != want_null:
-                bad.append((dict(zip(operands, combo)), got))
-            if not used:
-                break       # no comparison consulted: outcomes are irrelevant
-    return bad, ncases
 
 
-_orig_nullstrict = rule_nullstrict
 
 
-def rule_nullstrict(P) -> RuleResult:       # noqa: F811
-    res = _orig_nullstrict(P)
-    qc = P.module(QC)
-    for name, (kind, operands, why) in NULL_CONTRACT.items():
-        if kind != 'strict':
-            continue
-        ci = qc.classes.get(name)
-        if ci is None:
-            raise AnalysisError(f'anchor vanished: {name}')
-        call = P.find_method(ci, '__call__')
-        try:
-            bad, ncases = _null_table(P, ci, call, operands)
-        except AnalysisError as exc:
-            res.info(f'{name}: NULL truth table not computed ({exc})')
-            continue
-        if bad:
-            assign, got = bad[0]
-            desc = ', '.join(f'{k} {"NULL" if v is None else "non-NULL"}' for k, v in assign.items())
-            res.fail(ci.fq + '.__call__', 'null-table',
-                     f'{name} must yield NULL exactly when an operand is NULL; with {desc} it yields '
-                     f'{"NULL" if got is None else repr(got)}', loc(call))
-        else:
-            res.ok({'class': name, 'null_truth_table_cases': ncases})
-            # the truth table is exact and covers every NULL / non-NULL assignment: it supersedes the (approximate,
-            # non-relational) flow judgement for this class
-            res.findings = [f for f in res.findings if not (f.detail == 'null-flow' and f.construct == ci.fq + '.__call__')]
-    return res
